@@ -3,5 +3,6 @@ NEXT Next
 CONSTANTS
   MaxTargets = 2
   ChainAny = TRUE
+  FlagBlind = FALSE
 INVARIANT AppliedIsIntended
 CHECK_DEADLOCK FALSE
